@@ -62,8 +62,8 @@ Definition ok_tree : node :=
   Elt (row 40) [] [Elt (row 38) [] [Elt (row 21) [] [Elt (row 63) [] [txt awkward]]; Elt (row 12) [] []]].
 
 Example ok_tree_hypotheses :
-  node_ok syncml11 (opts_of_params Compact 0 true) None None ok_tree = true /\
-  node_ok syncml11 (opts_of_params Canonical 0 true) None None ok_tree = true /\
+  node_ok syncml11 (opts_of_params Compact 0 true) proot None ok_tree = true /\
+  node_ok syncml11 (opts_of_params Canonical 0 true) proot None ok_tree = true /\
   plain_attrs ok_tree = true.
 Proof. vm_compute. auto. Qed.
 
